@@ -2,7 +2,7 @@
 (* Every tree up to MaxNodes nodes, grown node by node (kind, parent), then   *)
 (* every link given every admissible target; the invariants are evaluated on *)
 (* the finished trees, which are also printed for the replay into the code.  *)
-EXTENDS Tree, Json, IOUtils
+EXTENDS Tree, Json, IOUtils, Integers
 CONSTANT MaxNodes
 VARIABLES tree, phase, deref
 vars == <<tree, phase, deref>>
@@ -10,15 +10,16 @@ Init == tree = <<>> /\ phase = "grow" /\ deref \in BOOLEAN
 Add == /\ phase = "grow" /\ Len(tree) < MaxNodes
        /\ \E k \in {"dir", "file", "empty", "link"} : \E p \in 0..Len(tree) :
             /\ (p # 0 => tree[p].k = "dir")
-            /\ tree' = Append(tree, [k |-> k, p |-> p, t |-> 0])
+            /\ tree' = Append(tree, [k |-> k, p |-> p, t |-> IF k = "link" THEN -1 ELSE 0])
        /\ UNCHANGED <<phase, deref>>
 StartLinking == phase = "grow" /\ Len(tree) >= 1 /\ phase' = "link" /\ UNCHANGED <<tree, deref>>
-Unlinked == { i \in 1..Len(tree) : tree[i].k = "link" /\ tree[i].t = 0 }
+Unlinked == { i \in 1..Len(tree) : tree[i].k = "link" /\ tree[i].t = -1 }
 SetTarget == /\ phase = "link" /\ Unlinked # {}
              /\ LET i == CHOOSE x \in Unlinked : \A y \in Unlinked : x <= y IN
                 \* a file, a directory, or a link that already has its target (lower index: links are targeted in index order)
-                \E t \in 1..Len(tree) : /\ t # i /\ (tree[t].k = "link" => t < i)
-                                        /\ Resolve(tree, t) # 0 /\ ~IsAncestor(tree, Resolve(tree, t), i)
+                \* (0: the root itself, only from below the top level - at the top level '.' would be the link's own directory)
+                \E t \in 0..Len(tree) : /\ t # i /\ (t = 0 => tree[i].p # 0) /\ (t > 0 /\ tree[t].k = "link" => t < i)
+                                        /\ Resolve(tree, t) # -1
                                         /\ tree' = [tree EXCEPT ![i].t = t]
              /\ UNCHANGED <<phase, deref>>
 Finish == phase = "link" /\ Unlinked = {} /\ phase' = "done" /\ UNCHANGED <<tree, deref>>
